@@ -4,11 +4,17 @@
     plan.dec <dyn id> <tag> <hex>     →  ok <val> | err | panic <msg>
     plan.conforms <dyn id> <tag> <val> →  ok 1 | ok 0 wf=<b> inrange=<b>   (the hypothesis `Conforms` of the C01 theorems,
                                           evaluated: `normTop … isSome` and `Item.AllInRange` of the encoder's items)
+  and of the PINNED reference tables the Go oracles of C05 / C06 work with (single source: the Lean files
+  `Pinned/Introduced.lean`, `Pinned/AttrSpec.lean`, the very definitions the theorems speak about):
+    gate.pinned                       →  ok key:tag:occ:major:minor …        (decimal, one token per row)
+    c06.attrspec                      →  ok name:type:reftag …               (decimal, packed name)
 -/
 import Driver.Common
 import KmipModel.Model.ValSyntax
 import KmipModel.Gen.Schema
 import KmipModel.Lemmas.PlanRoundtrip
+import KmipModel.Pinned.Introduced
+import KmipModel.Pinned.AttrSpec
 open Kmip
 
 namespace Driver
@@ -64,6 +70,10 @@ def handlePlan (cmd arg : String) : Option String :=
       | some dn, some tg, some bs => renderRes (do let v ← unmarshal Gen.schema dn tg bs; pure v.render)
       | _, _, _ => "bad-op"
     | _ => "bad-op"
+  | "gate.pinned" => some <|
+    "ok " ++ " ".intercalate (Pinned.introduced.map fun (k, t, o, M, m) => s!"{k}:{t}:{o}:{M}:{m}")
+  | "c06.attrspec" => some <|
+    "ok " ++ " ".intercalate (Pinned.attrSpec.map fun (n, t, r) => s!"{n}:{t}:{r}")
   | _ => none
 
 end Driver
